@@ -247,3 +247,8 @@ import langfam as L  # noqa: E402
 @prop("C02")
 def c02(run):
     return L.check_c02(run)
+
+
+@prop("C01")
+def c01(run):
+    return L.check_c01(run)
